@@ -11,7 +11,7 @@ import (
 
 // Op is one harness action, taken at a quiescent point.
 type Op struct {
-	// Kind: produce | produce-burst | tick | script | restart | crash | signal
+	// Kind: produce | produce-crash | produce-burst | tick | script | restart | crash | signal
 	Kind   string             `json:"kind"`
 	Step   *pw.Step           `json:"step,omitempty"`
 	N      int                `json:"n,omitempty"`
@@ -79,6 +79,17 @@ func (w *World) Apply(o Op) (*pw.StepResult, error) {
 	switch o.Kind {
 	case "produce":
 		r := w.Produce(*o.Step)
+		return &r, nil
+	case "produce-crash":
+		// the process dies at the N-th durable write of this production step (or right after the step if it
+		// performs fewer), then the node is started again on what is on disk
+		w.P.Raw.SetNoPanic(true)
+		w.P.Raw.ArmCrashAfter(o.N)
+		r := w.Produce(*o.Step)
+		w.P.Raw.Disarm()
+		if err := w.Restart(false); err != nil {
+			return &r, err
+		}
 		return &r, nil
 	case "produce-burst":
 		// N blocks in a row (every third one empty): a long backlog before the next submission round
